@@ -2,7 +2,8 @@
 # Runs the registered quick check of the property of each seeded change against /repo with the
 # change applied (then undone).  Results: seeded/<id>/check_result.txt.  Not part of any check.
 cd /verif
-for d in seeded/C*_m*; do
+LIST=""; if [ $# -gt 0 ]; then for a in "$@"; do LIST="$LIST seeded/$a"; done; else LIST=$(ls -d seeded/C*_m*); fi
+for d in $LIST; do
   id=$(basename $d); prop=${id%%_*}
   [ -f checks/$prop.py ] || { echo "$id: no check for $prop"; continue; }
   git -C /repo checkout -q -- . ; 
